@@ -315,9 +315,6 @@ func (g *TypeGen) Slice(depth int) reflect.Type {
 		if wc == 1 && e.Kind() == reflect.Ptr {
 			continue // slices of pointers to floats are rejected
 		}
-		if extKind(e) > 0 {
-			continue // null types inside slices lose validity (recorded separately)
-		}
 		return reflect.SliceOf(e)
 	}
 }
